@@ -16,6 +16,15 @@
 
 package datas
 
+import (
+	"context"
+
+	"github.com/dolthub/dolt/go/gen/fb/serial"
+	"github.com/dolthub/dolt/go/store/hash"
+	"github.com/dolthub/dolt/go/store/prolly"
+	"github.com/dolthub/dolt/go/store/types"
+)
+
 // Verification vocabulary (ghost code, compiled only with -tags verif). The
 // bodies are executable so that contracts can also be run concretely.
 
@@ -59,3 +68,93 @@ func verif_rangeidx() int { return 0 }
 
 // verif_arg stands for the i-th argument of the call a call-site assertion is attached to (contracts only).
 func verif_arg[T any](i int) T { var z T; return z }
+
+// ---- ghost state and spec functions for the ref-update protocol (C20, C21)
+
+var verif_ghost struct {
+	nUpd      int  // editor mutations (Update / Delete) applied so far
+	flushed   bool // the editor was flushed successfully
+	updFailed bool // some editor mutation returned an error
+	// (*database).update
+	rootRead   hash.Hash // result of the latest successful rt.Root
+	loadedRoot hash.Hash // root hash the datasets map was last loaded from
+	edited     bool      // the edit closure ran (successfully) on the map loaded from loadedRoot
+	written    bool      // the new store root was written after the edit
+	commitOK   bool      // the store accepted the root swap
+	ancFound   bool      // FindCommonAncestor reported an ancestor
+	anc        hash.Hash // ... namely this one
+	// the working set inspected by the clean-branch checks
+	wsStaged  hash.Hash
+	wsWorking hash.Hash
+}
+
+// verif_cur(name) is the address the datasets map handed to an edit closure holds for |name| (uninterpreted; the
+// closure receives exactly one map).
+func verif_cur(name string) hash.Hash { return hash.Hash{} }
+
+// verif_has(name): that map has an entry for |name| (uninterpreted).
+func verif_has(name string) bool { return false }
+
+// verif_valat(h) is the value stored under address |h| (uninterpreted).
+func verif_valat(h hash.Hash) types.Value { return nil }
+
+// verif_rootof(v) is the root-value address recorded in commit |v| (uninterpreted).
+func verif_rootof(v types.Value) hash.Hash { return hash.Hash{} }
+
+// verif_hashof(v) is the content address of |v| (uninterpreted).
+func verif_hashof(v types.Value) hash.Hash { return hash.Hash{} }
+
+func verif_x_am_Get(c prolly.AddressMap, ctx context.Context, name string) (addr hash.Hash, err error) {
+	return c.Get(ctx, name)
+}
+
+func verif_x_am_Has(c prolly.AddressMap, ctx context.Context, name string) (ok bool, err error) {
+	return c.Has(ctx, name)
+}
+
+func verif_x_am_Editor(c prolly.AddressMap) (ed prolly.AddressMapEditor) { return c.Editor() }
+
+func verif_x_ae_Update(wr prolly.AddressMapEditor, ctx context.Context, name string, addr hash.Hash) (err error) {
+	return wr.Update(ctx, name, addr)
+}
+
+func verif_x_ae_Delete(wr prolly.AddressMapEditor, ctx context.Context, name string) (err error) {
+	return wr.Delete(ctx, name)
+}
+
+func verif_x_ae_Flush(wr prolly.AddressMapEditor, ctx context.Context) (am prolly.AddressMap, err error) {
+	return wr.Flush(ctx)
+}
+
+func verif_x_Value_Hash(v types.Value, nbf *types.NomsBinFormat) (h hash.Hash, err error) {
+	return v.Hash(nbf)
+}
+
+func verif_x_ReadValue(vs *types.ValueStore, ctx context.Context, h hash.Hash) (v types.Value, err error) {
+	return vs.ReadValue(ctx, h)
+}
+
+func verif_x_rt_Root(rt rootTracker, ctx context.Context) (h hash.Hash, err error) {
+	return rt.Root(ctx)
+}
+
+func verif_x_rt_Commit(rt rootTracker, ctx context.Context, current, last hash.Hash) (ok bool, err error) {
+	return rt.Commit(ctx, current, last)
+}
+
+func verif_x_editFB(ctx context.Context, am prolly.AddressMap) (out prolly.AddressMap, err error) {
+	return am, nil
+}
+
+func verif_x_ws_Staged(m *serial.WorkingSet) (b []byte) { return m.StagedRootAddrBytes() }
+
+func verif_x_ws_Working(m *serial.WorkingSet) (b []byte) { return m.WorkingRootAddrBytes() }
+
+// verif_target(r) is the address a ref points at (uninterpreted).
+func verif_target(r types.Ref) hash.Hash { return hash.Hash{} }
+
+func verif_x_Ref_TargetHash(r types.Ref) (h hash.Hash) { return r.TargetHash() }
+
+func verif_x_WriteValue(vs *types.ValueStore, ctx context.Context, v types.Value) (r types.Ref, err error) {
+	return vs.WriteValue(ctx, v)
+}
